@@ -350,6 +350,7 @@ type c10ChildOut struct {
 	Runs       []c10RunObs            `json:"runs"`
 	Probes     []c10ProbeObs          `json:"probes"`
 	BigRuns    []c10RunObs            `json:"big_runs"`
+	Trials     []c10Trial             `json:"disconnect_trials"`
 	Stress     map[string]interface{} `json:"stress"`
 	StuckNotes []string               `json:"stuck_notes,omitempty"`
 }
@@ -1455,6 +1456,198 @@ func c10StressRetry(rng *rand.Rand, iters int) {
 	}
 }
 
+// K independent clients setting up (and re-establishing) connections at the same time: state
+// shared by ALL clients of the process (package-level variables) is only exercised this way.
+func c10StressMulti(rng *rand.Rand, k, rounds int) (connects int64) {
+	runtime.GOMAXPROCS(2 + rng.Intn(7))
+	start := make(chan struct{})
+	var wg sync.WaitGroup
+	for g := 0; g < k; g++ {
+		wg.Add(1)
+		go func(g int) {
+			defer wg.Done()
+			<-start
+			for r := 0; r < rounds; r++ {
+				conn := newC10Conn()
+				br := &c10Broker{}
+				conn.onFrame = br.onFrame
+				cli := &mqtt.BaseClient{Transport: conn}
+				ctx, cancel := ctxTimeout(10 * time.Second)
+				if _, err := cli.Connect(ctx, fmt.Sprintf("m%d", g)); err == nil {
+					atomic.AddInt64(&connects, 1)
+					_ = cli.Ping(ctx)
+					_ = cli.Publish(ctx, &mqtt.Message{Topic: "m", QoS: 1, Payload: []byte{byte(r)}})
+				}
+				cancel()
+				cli.Close()
+				runtime.Gosched()
+			}
+		}(g)
+	}
+	// and a few ReconnectClients that lose their connection at about the same time
+	nRC := k / 2
+	if nRC < 2 {
+		nRC = 2
+	}
+	for g := 0; g < nRC; g++ {
+		wg.Add(1)
+		go func(g int) {
+			defer wg.Done()
+			<-start
+			d := &c10Dialer{cutNext: 1 << 30}
+			cli, err := mqtt.NewReconnectClient(d, mqtt.WithReconnectWait(time.Millisecond, 2*time.Millisecond), mqtt.WithTimeout(2*time.Second))
+			if err != nil {
+				return
+			}
+			ctx, cancel := ctxTimeout(20 * time.Second)
+			_, _ = cli.Connect(ctx, fmt.Sprintf("rc%d", g))
+			cancel()
+			for cut := 0; cut < 1+rounds/8; cut++ {
+				d.mu.Lock()
+				n0 := len(d.conns)
+				d.mu.Unlock()
+				if cur := d.current(); cur != nil {
+					cur.Close()
+				}
+				c10Until(func() bool { d.mu.Lock(); defer d.mu.Unlock(); return len(d.conns) > n0 })
+				ctx, cancel := ctxTimeout(5 * time.Second)
+				_ = cli.Publish(ctx, &mqtt.Message{Topic: "m", QoS: 1, Payload: []byte{byte(cut)}})
+				cancel()
+			}
+			ctx2, cancel2 := ctxTimeout(10 * time.Second)
+			_ = cli.Disconnect(ctx2)
+			cancel2()
+			d.mu.Lock()
+			atomic.AddInt64(&connects, int64(len(d.conns)))
+			for _, c := range d.conns {
+				c.Close()
+			}
+			d.mu.Unlock()
+		}(g)
+	}
+	close(start)
+	c10WaitGroup(&wg, 120*time.Second)
+	return atomic.LoadInt64(&connects)
+}
+
+type c10Trial struct {
+	Calls  []string `json:"calls"`
+	Codes  []int    `json:"codes"` // 0 nil, 1 ErrClosedClient, 2 other error, 3 panic
+	Detail []string `json:"detail,omitempty"`
+}
+
+// Disconnect issued while 4-8 producers (Publish QoS0/1, Subscribe, Unsubscribe, Retry,
+// Resubscribe) are still issuing requests on the same RetryClient. Every call must return nil
+// or ErrClosedClient; nothing may panic.
+func c10DisconnectTrials(rng *rand.Rand, n int) []c10Trial {
+	var out []c10Trial
+	for t := 0; t < n; t++ {
+		runtime.GOMAXPROCS(2 + rng.Intn(7))
+		conn := newC10Conn()
+		br := &c10Broker{}
+		conn.onFrame = br.onFrame
+		base := &mqtt.BaseClient{Transport: conn}
+		rc := &mqtt.RetryClient{}
+		ctx, cancel := ctxTimeout(10 * time.Second)
+		rc.SetClient(ctx, base)
+		_, cerr := rc.Connect(ctx, "cid")
+		cancel()
+		var mu sync.Mutex
+		tr := c10Trial{}
+		if cerr != nil {
+			tr.Calls, tr.Codes, tr.Detail = []string{"Connect"}, []int{2}, []string{cerr.Error()}
+			out = append(out, tr)
+			continue
+		}
+		note := func(call string, err error, pan interface{}) {
+			code := 0
+			detail := ""
+			switch {
+			case pan != nil:
+				code, detail = 3, fmt.Sprintf("%s panicked: %v", call, pan)
+			case err == nil:
+			case errors.Is(err, mqtt.ErrClosedClient):
+				code = 1
+			default:
+				code, detail = 2, call+": "+err.Error()
+			}
+			mu.Lock()
+			tr.Calls = append(tr.Calls, call)
+			tr.Codes = append(tr.Codes, code)
+			if detail != "" {
+				tr.Detail = append(tr.Detail, detail)
+			}
+			mu.Unlock()
+		}
+		do := func(call string, f func() error) {
+			var err error
+			var pan interface{}
+			func() {
+				defer func() { pan = recover() }()
+				err = f()
+			}()
+			note(call, err, pan)
+		}
+		nProd := 4 + rng.Intn(5)
+		start := make(chan struct{})
+		var wg sync.WaitGroup
+		for g := 0; g < nProd; g++ {
+			kind := (g + t) % 6
+			spin := rng.Intn(4)
+			wg.Add(1)
+			go func(g, kind, spin int) {
+				defer wg.Done()
+				<-start
+				for i := 0; i < spin; i++ {
+					runtime.Gosched()
+				}
+				for k := 0; k < 3; k++ {
+					ctx, cancel := ctxTimeout(5 * time.Second)
+					switch kind {
+					case 0:
+						do("Publish(QoS0)", func() error { return rc.Publish(ctx, &mqtt.Message{Topic: "d", Payload: []byte{byte(k)}}) })
+					case 1:
+						do("Publish(QoS1)", func() error { return rc.Publish(ctx, &mqtt.Message{Topic: "d", QoS: 1, Payload: []byte{byte(k)}}) })
+					case 2:
+						do("Subscribe", func() error { _, err := rc.Subscribe(ctx, mqtt.Subscription{Topic: "d", QoS: 1}); return err })
+					case 3:
+						do("Retry", func() error { rc.Retry(ctx); return nil })
+					case 4:
+						do("Resubscribe", func() error { rc.Resubscribe(ctx); return nil })
+					case 5:
+						do("Unsubscribe", func() error { return rc.Unsubscribe(ctx, "d") })
+					}
+					cancel()
+				}
+			}(g, kind, spin)
+		}
+		wg.Add(1)
+		dspin := rng.Intn(6)
+		go func() {
+			defer wg.Done()
+			<-start
+			for i := 0; i < dspin; i++ {
+				runtime.Gosched()
+			}
+			ctx, cancel := ctxTimeout(5 * time.Second)
+			defer cancel()
+			do("Disconnect", func() error { return rc.Disconnect(ctx) })
+		}()
+		close(start)
+		if !c10WaitGroup(&wg, 30*time.Second) {
+			mu.Lock()
+			tr.Calls = append(tr.Calls, "(trial did not finish)")
+			tr.Codes = append(tr.Codes, 2)
+			mu.Unlock()
+		}
+		base.Close()
+		mu.Lock()
+		out = append(out, c10Trial{Calls: append([]string{}, tr.Calls...), Codes: append([]int{}, tr.Codes...), Detail: append([]string{}, tr.Detail...)})
+		mu.Unlock()
+	}
+	return out
+}
+
 // ===================================================================== child
 
 func runC10Child(cfg *runCfg) error {
@@ -1524,6 +1717,17 @@ func runC10Child(cfg *runCfg) error {
 	c10StressRetry(rng, retryIters)
 	lap("retryclient")
 	out.Stress["retryclient_iterations"] = retryIters
+	multiK, multiRounds, nTrials := 8, 60, 400
+	switch cfg.tier {
+	case "thorough":
+		multiK, multiRounds, nTrials = 12, 400, 6000
+	case "search":
+		multiK, multiRounds, nTrials = 8, 60, 800
+	}
+	out.Stress["multi_client_connects"] = c10StressMulti(rng, multiK, multiRounds)
+	lap("multi_client")
+	out.Trials = c10DisconnectTrials(rng, nTrials)
+	lap("disconnect_trials")
 	conns, notes := c10StressReconnect(rng, reconIters, reconG, reconOps)
 	lap("reconnect")
 	out.Stress["reconnect_iterations"] = reconIters
@@ -1573,7 +1777,9 @@ func c10ParseRaceLogs(glob string) ([]c10Race, error) {
 							continue
 						}
 						fn := m[1]
-						if strings.HasPrefix(fn, "runtime.") || strings.HasPrefix(fn, "sync.") || strings.HasPrefix(fn, "sync/atomic.") || strings.HasPrefix(fn, "internal/") {
+						// whose code made the access: the innermost frame that is library or harness
+						// (standard-library frames above it, e.g. math/rand.(*Rand).Int31n, were called by it)
+						if !strings.HasPrefix(fn, "github.com/at-wat/mqtt-go.") && !strings.HasPrefix(fn, "main.") {
 							continue
 						}
 						loc := ""
@@ -1741,7 +1947,7 @@ func runC10(cfg *runCfg) error {
 	m.Families["lockset_decision"] = []interface{}{"discipline_ok over ALL pairs of the table disagrees with the harness's enumeration of candidate pairs"}
 	for _, r := range []string{"BaseClient.Transport.Write()", "BaseClient.sig", "BaseClient.connClosed", "BaseClient.handler", "BaseClient.connState", "BaseClient.err", "BaseClient.idLast", "BaseClient.stats",
 		"signaller.chPubAck", "signaller.chPubRec", "signaller.chPubComp", "signaller.chSubAck", "signaller.chUnsubAck", "signaller.chPingResp",
-		"RetryClient.cli", "RetryClient.taskQueue", "RetryClient.retryQueue", "RetryClient.chTask", "RetryClient.stats", "RetryClient.stopped", "RetryClient.subEstablished", "firstError.err"} {
+		"RetryClient.cli", "RetryClient.taskQueue", "RetryClient.retryQueue", "RetryClient.chTask", "RetryClient.stats", "RetryClient.stopped", "RetryClient.subEstablished", "firstError.err", "RetryClient.chTask<-close()"} {
 		m.Families["coverage"] = append(m.Families["coverage"], "the access table has no write to "+r+" (translator no longer sees the code the property is anchored in)")
 	}
 	facts := x.checkFacts()
@@ -1881,6 +2087,19 @@ func runC10(cfg *runCfg) error {
 	cf.result("V_bigwire", "c10_big_wire_violations c10_big_runs")
 	cf.result("V_big_one_write", "c10_big_call_violations c10_big_runs")
 	cf.result("M_model", "c10_model_mismatches 150%nat c10_runs")
+	var trialRows []string
+	for i, t := range co.Trials {
+		cs := make([]string, len(t.Codes))
+		for j, c := range t.Codes {
+			cs[j] = fmt.Sprint(c)
+		}
+		trialRows = append(trialRows, cListInline(cs))
+		m.Families["disconnect"] = append(m.Families["disconnect"], map[string]interface{}{
+			"trial": i, "what": "Disconnect racing producers on one RetryClient: every call must return nil or ErrClosedClient and must not panic",
+			"calls": t.Calls, "codes_0nil_1closed_2other_3panic": t.Codes, "detail": t.Detail})
+	}
+	cf.def("c10_trials", "list (list N)", cListInline(trialRows))
+	cf.result("V_disconnect", "c10_trial_violations c10_trials")
 	cf.def("c10_probes", "list c10_probe", cList(probeRows))
 	cf.result("V_overlap", "c10_probe_violations c10_probes")
 	cf.def("c10_probe_unseen", "list bool", cListInline(stuckRows))
@@ -1911,7 +2130,7 @@ func runC10(cfg *runCfg) error {
 	}
 
 	// ---------------- evidence
-	m.Evaluations = len(x.accesses) + len(pairs) + len(co.Runs) + len(co.Probes) + len(co.BigRuns)
+	m.Evaluations = len(x.accesses) + len(pairs) + len(co.Runs) + len(co.Probes) + len(co.BigRuns) + len(co.Trials)
 	m.DistinctNontrivial = len(pairs) + len(co.Probes) + len(co.Runs)
 	m.Rule = "a candidate pair = two table rows on one field, not both reads, not both atomic; a probe = one (holder, contender) combination of writers; a wire run = one concurrent session with >= 8 goroutines and inbound traffic"
 	roles := map[string]int{}
@@ -1922,7 +2141,7 @@ func runC10(cfg *runCfg) error {
 	}
 	m.Distribution = map[string]interface{}{
 		"access_table_rows": len(x.accesses), "candidate_pairs": len(pairs), "rows_per_field": byField, "rows_per_role": roles,
-		"translator_warnings": x.warnings, "wire_runs": len(co.Runs), "overlap_probes": len(co.Probes), "large_packet_runs": len(co.BigRuns),
+		"translator_warnings": x.warnings, "wire_runs": len(co.Runs), "overlap_probes": len(co.Probes), "large_packet_runs": len(co.BigRuns), "disconnect_trials": len(co.Trials),
 		"packets_written_in_wire_runs_and_probes": nPackets, "race_exploration": co.Stress, "race_reports_total": len(races),
 		"race_reports_library_distinct": len(seen), "child_wall_s": childWall.Seconds(), "stuck_notes": co.StuckNotes,
 		"tier": cfg.tier, "seed": cfg.seed,
